@@ -204,12 +204,25 @@ def string_ref_rule(text):
         return 'String %s_v = STRING_COPY(%s); const String* %s = &%s_v;' % (m.group(1), m.group(2), m.group(1), m.group(1))
     text = re.sub(r'(?<!const )\bString\s+(\w+)\s*=\s*([^;]+);', cp, text)
     return text, n
+def put_top_rule(text):
+    """`Var& NAME = _lists.top();` and the uses of NAME (whatever it is called):  NAME.type() -> g_top_type,  NAME << x -> appended,  NAME[key] = x -> VF_TOP[key] = x"""
+    import re
+    m = re.search(r'Var&\s*(\w+)\s*=\s*_lists\.top\(\);', text)
+    if not m:
+        return text, 0
+    n = m.group(1)
+    text = text[:m.start()] + 'LISTS_TOP();' + text[m.end():]
+    text = re.sub(r'\b%s\.type\(\)' % n, 'g_top_type', text)
+    text = re.sub(r'\b%s << x;' % n, 'g_appended++;', text)
+    text = re.sub(r'\b%s\[' % n, 'VF_TOP[', text)
+    return text, 1
+put_top_rule.must_fire = True
 put_unit = Unit(
     'XdlParser_put', 'C06',
     cuts=[Cut('put', X, r'^void XdlParser::put\(const Var& x\)\s*$',
-              rules=[(r'Var& top = _lists\.top\(\);', 'LISTS_TOP();', 1), (r'top\.type\(\)', 'g_top_type', 1), (r'\bVar::ARRAY\b', 'VAR_ARRAY', None), (r'\bVar::OBJ\b', 'VAR_OBJ', None),
-                     (r'top << x;', 'g_appended++;', 1), (r'_props\.top\(\)', 'PROPS_TOP()', None), (r'_props\.pop\(\);', 'PROPS_POP();', None),
-                     string_ref_rule, (r'top\[([^\]]+)\] = x;', r'KEY_SET(\1);', 1)])],
+              rules=[put_top_rule, (r'\bVar::ARRAY\b', 'VAR_ARRAY', None), (r'\bVar::OBJ\b', 'VAR_OBJ', None),
+                     (r'_props\.top\(\)', 'PROPS_TOP()', None), (r'_props\.pop\(\);', 'PROPS_POP();', None),
+                     string_ref_rule, (r'VF_TOP\[([^\]]+)\] = x;', r'KEY_SET(\1);', 1)])],
     text=r'''
 #include "vf_string.h"
 enum { VAR_OTHER = 0, VAR_ARRAY = 1, VAR_OBJ = 2 };
